@@ -21,7 +21,7 @@ RULE = ('histories of 1-10 steps: unit environments opened with valid units (dic
         'distinct by event-type sequence + failure positions')
 SHARDS = {'quick': 16, 'thorough': 16}
 MIN_NONTRIVIAL = {'quick': 600, 'thorough': 15000}
-REQUIRED_CLASSES = ['scope-valid', 'scope-nested', 'scope-repeated', 'scope-body-raises', 'fail:duplicate-standard', 'fail:duplicate-outer',
+REQUIRED_CLASSES = ['entry-with-explicit-name:long', 'entry-with-explicit-name:builtin-symbol', 'scope-valid', 'scope-nested', 'scope-repeated', 'scope-body-raises', 'fail:duplicate-standard', 'fail:duplicate-outer',
                     'fail:prefixed-clash', 'fail:malformed', 'fail:malformed-entry-with-new-conversion-type', 'fail:entry-admits-an-unknown-prefix', 'custom-type-unit-used-inside-scope', 'fail-after-successes', 'form:dict', 'form:quantity', 'form:prefixes', 'form:builtin-type', 'nested-scopes-share-a-conversion-class', 'overlapping-lifetimes', 'overlapping-lifetimes:class-brought-by-first', 'overlapping-lifetimes:class-brought-by-second',
                     'form:custom-type', 'dip:valid', 'dip:clash-second-unit', 'dip:unrelated-error', 'dip:expression', 'dip:add_unit',
                     'dip:nested-in-scope', 'dip:units-from-source']
@@ -106,7 +106,8 @@ def gen_units(rng, names, fail=None):
     out = []
     for s in names:
         form = rng.choice(['dict', 'dict', 'quantity', 'prefixes', 'custom-type', 'custom-type', 'builtin-type'])
-        out.append(dict(sym=s, form=form, mag=rng.choice([2.0, 0.5, 3.0, 12.5, 1e3]), pre=['k', 'M'] if form == 'prefixes' else None))
+        out.append(dict(sym=s, form=form, mag=rng.choice([2.0, 0.5, 3.0, 12.5, 1e3]), pre=['k', 'M'] if form == 'prefixes' else None,
+                        name=rng.choice([None, None, 'long', 'builtin-symbol', 'same', 'other-custom-symbol']), explicit_defaults=rng.random() < 0.2))
     if fail:
         kind, pos = fail
         pos = min(pos, len(out))
@@ -230,6 +231,15 @@ def unit_dict(ctx, u):
         d['definition'] = ctx['CT']
     if u['form'] == 'builtin-type':
         d['definition'] = ctx['STD']         # a conversion class that is registered already: the standard linear one
+    # the optional settings of an entry written out: a NAME that is not the symbol (a long name, the symbol of a built-in unit,
+    # the symbol of another custom unit of the history), defaults given explicitly
+    nm = u.get('name')
+    if nm:
+        d['name'] = {'long': 'unit called ' + u['sym'], 'builtin-symbol': ['bar', 'm', 'Cel', 'dB'][len(u['sym']) % 4], 'same': u['sym'],
+                     'other-custom-symbol': 'xa'}[nm]
+    if u.get('explicit_defaults'):
+        d.setdefault('definition', None)
+        d.setdefault('prefixes', False)
     return d
 
 
@@ -336,6 +346,8 @@ def run_scope(sc, ctx, st, active):
     for u in sc['units']:
         if u['form'] in ('dict', 'quantity', 'prefixes', 'custom-type', 'builtin-type'):
             st['classes'].add('form:' + u['form'])
+            if u.get('name') and u['form'] in ('dict', 'prefixes', 'custom-type', 'builtin-type'):
+                st['classes'].add('entry-with-explicit-name:' + u['name'])
     if sc.get('shares_class') and active:
         st['classes'].add('nested-scopes-share-a-conversion-class')
     if sc['fail']:
